@@ -377,16 +377,46 @@ pub fn compile_expr(
         },
 
         ast::Expr::Between {
-            ref expr,
+            expr: ref tested,
             ref negated,
             ref low,
             ref high,
-        } => Ok(Expr::Between {
-            expr: Box::new(compile_expr(expr, input, output)?),
-            negated: *negated,
-            low: Box::new(compile_expr(low, input, output)?),
-            high: Box::new(compile_expr(high, input, output)?),
-        }),
+        } => {
+            let mut tested_expr = compile_expr(tested, input, output)?;
+            let mut low_expr = compile_expr(low, input, output)?;
+            let mut high_expr = compile_expr(high, input, output)?;
+
+            // Resolve unresolved literals if any: a literal is typed after
+            // the expression it is compared with
+            let type_error = || {
+                CompilationError::TypeError(format!(
+                    "operands of BETWEEN are incompatible in expression \"{expr}\""
+                ))
+            };
+            if let Err(literal) = tested_expr.get_type() {
+                let wanted_type = match (low_expr.get_type(), high_expr.get_type()) {
+                    (Ok(low_type), _) => low_type,
+                    (Err(_), Ok(high_type)) => high_type,
+                    (Err(_), Err(_)) => return Err(type_error()),
+                };
+                tested_expr = resolve_literal(literal, wanted_type).map_err(|_| type_error())?;
+            }
+            let tested_type = tested_expr.get_type().map_err(|_| type_error())?;
+            if let Err(literal) = low_expr.get_type() {
+                low_expr =
+                    resolve_literal(literal, tested_type.clone()).map_err(|_| type_error())?;
+            }
+            if let Err(literal) = high_expr.get_type() {
+                high_expr = resolve_literal(literal, tested_type).map_err(|_| type_error())?;
+            }
+
+            Ok(Expr::Between {
+                expr: Box::new(tested_expr),
+                negated: *negated,
+                low: Box::new(low_expr),
+                high: Box::new(high_expr),
+            })
+        }
         operator => Err(CompilationError::UnsupportedOperator(format!(
             "Unsupported operator \"{operator}\""
         ))),
